@@ -3,7 +3,7 @@ import random
 import props_PN
 from propdefs import bfs
 
-N_DOCS = 26
+N_DOCS = 27
 GOOD_URLS = [1, 2, 3, 4, 16, 13, 17]
 ODD_URLS = [5, 6, 7, 8, 9, 10, 11, 12, 13, 14, 15, 18, 19]
 
@@ -122,7 +122,7 @@ def c01_groups(cases, ctx):
                 entry = "apply" if root != "document" else rnd.choice(["apply", "apply", "reader"])
                 out.append(dict(p=dict(doc=d, root=root, hist=[step(o, entry, url)])))
     # the documents with pagers and odd anchors, systematically through every page-URL class and both finders
-    for d in (1, 8, 9, 11, 15, 16, 18, 23, 24):
+    for d in (1, 8, 9, 11, 15, 16, 18, 23, 24, 25):
         for url in GOOD_URLS + ODD_URLS:
             for algo in ("prevnext", "pagenumber"):
                 for rep in range(3 if ctx["tier"] == "quick" else 25):
